@@ -38,9 +38,22 @@ func Probes(universe [][]byte, snap model.Snap) [][]byte {
 	for k := range snap {
 		add([]byte(k))
 	}
+	// the empty key is probed where the history uses it (it is a legal tree key)
+	hasEmpty := false
+	for _, k := range universe {
+		if k != nil && len(k) == 0 {
+			hasEmpty = true
+		}
+	}
+	if _, ok := snap[""]; ok || hasEmpty {
+		if !seen[""] {
+			seen[""] = true
+			out = append(out, []byte{})
+		}
+	}
 	base := append([][]byte(nil), out...)
 	for i, k := range base {
-		if i%3 == 0 {
+		if i%3 == 0 || len(k) == 0 {
 			add(append(append([]byte(nil), k...), 0))
 		}
 		if i%3 == 1 && len(k) > 1 {
